@@ -137,7 +137,10 @@ func (l *Loader) loadWithContent(path, content string, visited map[string]bool) 
 	}
 
 	result := NewResolvedJournal(journal)
+	// visited[p] is true while p is being included (p is on the include stack) and
+	// false once p and everything below it has been loaded.
 	visited[path] = true
+	defer func() { visited[path] = false }()
 
 	for _, inc := range journal.Includes {
 		if IsGlobPattern(inc.Path) {
@@ -186,7 +189,12 @@ func (l *Loader) loadSingleInclude(
 	var errors []LoadError
 	limits := l.getLimits()
 
-	if visited[includePath] {
+	if including, seen := visited[includePath]; seen {
+		if !including {
+			// Already loaded through another include path (e.g. a diamond): this is
+			// not a cycle, and the file must not be loaded a second time.
+			return errors
+		}
 		errors = append(errors, LoadError{
 			Kind:    ErrorCycleDetected,
 			Path:    includePath,
